@@ -453,33 +453,34 @@ def isPrefixOnly : RoomCheck → Bool
   | .checkID => false
 
 open V.Limits in
-/-- well-formedness of sender / room ID on the boolean abstraction (room sigil present) -/
-def wfX (rc : RoomCheck) (exempt sColon sSigil rColon rValid roomB : Bool) : Bool :=
-  (exempt || (sColon && sSigil)) && (isPrefixOnly rc || rColon) && (rValid || roomB)
+/-- well-formedness of sender / room ID on the boolean abstraction (`create`: a create event; in the versions with
+    domain-less room IDs nothing is demanded of its room_id member) -/
+def wfX (rc : RoomCheck) (exempt create sColon sSigil rColon rSigil rValid roomB : Bool) : Bool :=
+  (exempt || (sColon && sSigil)) && ((isPrefixOnly rc && create) || (rSigil && (isPrefixOnly rc || rColon) && (rValid || roomB)))
 
 open V.Limits in
-theorem limitsX_eq_spec : ∀ (rc : RoomCheck) (exempt json typeCP skCP typeB skB senderCP senderB roomCP roomB rValid sColon sSigil rColon : Bool),
+theorem limitsX_eq_spec : ∀ (rc : RoomCheck) (exempt create json typeCP skCP typeB skB senderCP senderB roomCP roomB rValid sColon sSigil rColon rSigil : Bool),
     let x : Exceeds := ⟨json, typeCP, skCP, typeB, skB, senderCP, senderB, roomCP, roomB⟩
-    wfX rc exempt sColon sSigil rColon rValid roomB = true → (rValid = true → roomB = false ∧ roomCP = false) →
+    wfX rc exempt create sColon sSigil rColon rSigil rValid roomB = true → (rValid = true → roomB = false ∧ roomCP = false) →
     x.roomBytesOnly = false →
-    some (verdictX true exempt rc sColon sSigil rColon true rValid x).cls = (specX true x).map Outcome.cls := by
-  intro rc; cases rc <;> decide +kernel
+    some (verdictX true exempt rc create sColon sSigil rColon rSigil rValid x).cls = (specX true x).map Outcome.cls := by
+  intro rc exempt create; cases rc <;> cases exempt <;> cases create <;> decide +kernel
 
 open V.Limits in
-theorem limitsX_untrusted_eq_spec : ∀ (rc : RoomCheck) (exempt json typeCP skCP typeB skB senderCP senderB roomCP roomB rValid sColon sSigil rColon checked : Bool),
+theorem limitsX_untrusted_eq_spec : ∀ (rc : RoomCheck) (exempt create json typeCP skCP typeB skB senderCP senderB roomCP roomB rValid sColon sSigil rColon rSigil checked : Bool),
     let x : Exceeds := ⟨json, typeCP, skCP, typeB, skB, senderCP, senderB, roomCP, roomB⟩
-    wfX rc exempt sColon sSigil rColon rValid roomB = true → (rValid = true → roomB = false ∧ roomCP = false) →
+    wfX rc exempt create sColon sSigil rColon rSigil rValid roomB = true → (rValid = true → roomB = false ∧ roomCP = false) →
     x.roomBytesOnly = false → (checked = true → json = true) →
-    some (verdictUntrustedX true exempt rc sColon sSigil rColon true rValid x checked).cls = (specX true x).map Outcome.cls := by
-  intro rc; cases rc <;> decide +kernel
+    some (verdictUntrustedX true exempt rc create sColon sSigil rColon rSigil rValid x checked).cls = (specX true x).map Outcome.cls := by
+  intro rc exempt create; cases rc <;> cases exempt <;> cases create <;> decide +kernel
 
 open V.Limits in
-theorem limitsX_gap : ∀ (rc : RoomCheck) (exempt json typeCP skCP typeB skB senderCP senderB roomCP roomB rValid sColon sSigil rColon : Bool),
+theorem limitsX_gap : ∀ (rc : RoomCheck) (exempt create json typeCP skCP typeB skB senderCP senderB roomCP roomB rValid sColon sSigil rColon rSigil : Bool),
     let x : Exceeds := ⟨json, typeCP, skCP, typeB, skB, senderCP, senderB, roomCP, roomB⟩
-    wfX rc exempt sColon sSigil rColon rValid roomB = true → (rValid = true → roomB = false ∧ roomCP = false) →
+    wfX rc exempt create sColon sSigil rColon rSigil rValid roomB = true → (rValid = true → roomB = false ∧ roomCP = false) →
     x.roomBytesOnly = true →
-    ((verdictX true exempt rc sColon sSigil rColon true rValid x).cls, specX true x) = (Class.refused, some Outcome.tooLargePersistable) := by
-  intro rc; cases rc <;> decide +kernel
+    ((verdictX true exempt rc create sColon sSigil rColon rSigil rValid x).cls, specX true x) = (Class.refused, some Outcome.tooLargePersistable) := by
+  intro rc exempt create; cases rc <;> cases exempt <;> cases create <;> decide +kernel
 
 open V.Limits V.Ident in
 /-- a room ID that spec.NewRoomID accepts is within both limits -/
@@ -501,13 +502,8 @@ open V.Limits V.Ident in
 /-- the spec's well-formedness, restated on the abstraction -/
 theorem wf_to_wfX (rc : RoomCheck) (exempt : Bool) (s : Sizes)
     (hw : Spec.wellFormedIDs (isPrefixOnly rc) exempt s = true) :
-    s.room.sigilOk = true ∧
-    wfX rc exempt s.sender.hasColon s.sender.sigilOk s.room.hasColon s.roomValid (exceeds 255 65536 s).roomB = true := by
-  simp only [Spec.wellFormedIDs, Bool.and_eq_true, Bool.or_eq_true, Spec.maxFieldLen] at hw
-  obtain ⟨⟨⟨hs, hrs⟩, hrc⟩, hrv⟩ := hw
-  refine ⟨hrs, ?_⟩
-  simp only [wfX, exceeds, Bool.and_eq_true, Bool.or_eq_true]
-  exact ⟨⟨hs, hrc⟩, hrv⟩
+    wfX rc exempt s.create s.sender.hasColon s.sender.sigilOk s.room.hasColon s.room.sigilOk s.roomValid (exceeds 255 65536 s).roomB = true := by
+  exact hw
 
 open V.Limits V.Ident in
 /-- LIMITS on the trusted path and on build (NewEventFromTrustedJSON + CheckFields, the tail of
@@ -523,12 +519,12 @@ theorem limits_eq_spec_partial (rc : RoomCheck) (exempt : Bool) (n : Nat) (ty : 
     some (verdict (stdParams rc exempt) (sizesOf n ty sk se ro)).cls =
       (Spec.verdict (isPrefixOnly rc) exempt (sizesOf n ty sk se ro)).map Outcome.cls := by
   have hrv := roomValid_within n ty sk se ro
-  obtain ⟨hsig, hwx⟩ := wf_to_wfX rc exempt _ hw
+  have hwx := wf_to_wfX rc exempt _ hw
   rw [verdict_eq_verdictX, spec_eq_specX, hw]
-  simp only [stdParams, hsig]
+  simp only [stdParams]
   generalize hx : exceeds 255 65536 (sizesOf n ty sk se ro) = x at hgap hrv hwx ⊢
   obtain ⟨json, typeCP, skCP, typeB, skB, senderCP, senderB, roomCP, roomB⟩ := x
-  exact limitsX_eq_spec rc exempt _ _ _ _ _ _ _ _ _ _ _ _ _ hwx hrv hgap
+  exact limitsX_eq_spec rc exempt _ _ _ _ _ _ _ _ _ _ _ _ _ _ _ hwx hrv hgap
 
 open V.Limits V.Ident in
 /-- LIMITS on receipt (NewEventFromUntrustedJSON): the same, whether or not the content hash matches
@@ -540,14 +536,14 @@ theorem limits_untrusted_eq_spec_partial (rc : RoomCheck) (exempt : Bool) (n che
     some (verdictUntrusted (stdParams rc exempt) (sizesOf n ty sk se ro) checkedLen).cls =
       (Spec.verdict (isPrefixOnly rc) exempt (sizesOf n ty sk se ro)).map Outcome.cls := by
   have hrv := roomValid_within n ty sk se ro
-  obtain ⟨hsig, hwx⟩ := wf_to_wfX rc exempt _ hw
+  have hwx := wf_to_wfX rc exempt _ hw
   have hck : decide (checkedLen > 65536) = true → (exceeds 255 65536 (sizesOf n ty sk se ro)).json = true := by
     intro h; have h' := of_decide_eq_true h; simp only [exceeds, sizesOf]; exact decide_eq_true (by omega)
   rw [verdictUntrusted_eq_X, spec_eq_specX, hw]
-  simp only [stdParams, hsig]
+  simp only [stdParams]
   generalize hx : exceeds 255 65536 (sizesOf n ty sk se ro) = x at hgap hrv hwx hck ⊢
   obtain ⟨json, typeCP, skCP, typeB, skB, senderCP, senderB, roomCP, roomB⟩ := x
-  exact limitsX_untrusted_eq_spec rc exempt _ _ _ _ _ _ _ _ _ _ _ _ _ _ hwx hrv hgap hck
+  exact limitsX_untrusted_eq_spec rc exempt _ _ _ _ _ _ _ _ _ _ _ _ _ _ _ _ hwx hrv hgap hck
 
 open V.Limits V.Ident in
 /-- the full-strength statement fails exactly on `roomBytesOnly`: there the code refuses, while the
@@ -559,12 +555,12 @@ theorem limits_roomBytes_gap (rc : RoomCheck) (exempt : Bool) (n : Nat) (ty : BS
     (verdict (stdParams rc exempt) (sizesOf n ty sk se ro)).cls = .refused ∧
       Spec.verdict (isPrefixOnly rc) exempt (sizesOf n ty sk se ro) = some .tooLargePersistable := by
   have hrv := roomValid_within n ty sk se ro
-  obtain ⟨hsig, hwx⟩ := wf_to_wfX rc exempt _ hw
+  have hwx := wf_to_wfX rc exempt _ hw
   rw [verdict_eq_verdictX, spec_eq_specX, hw]
-  simp only [stdParams, hsig]
+  simp only [stdParams]
   generalize hx : exceeds 255 65536 (sizesOf n ty sk se ro) = x at hgap hrv hwx ⊢
   obtain ⟨json, typeCP, skCP, typeB, skB, senderCP, senderB, roomCP, roomB⟩ := x
-  have := limitsX_gap rc exempt _ _ _ _ _ _ _ _ _ _ _ _ _ hwx hrv hgap
+  have := limitsX_gap rc exempt _ _ _ _ _ _ _ _ _ _ _ _ _ _ _ hwx hrv hgap
   exact ⟨congrArg Prod.fst this, congrArg Prod.snd this⟩
 
 open V.Limits V.Ident in
@@ -574,6 +570,24 @@ example :
     let s := sizesOf 2000 [0x6D] none [0x40, 0x73, 0x3A, 0x62] room
     (exceeds 255 65536 s).roomBytesOnly = true ∧ Spec.wellFormedIDs false false s = true ∧
     verdict (stdParams .checkID false) s = .tooLarge ∧ Spec.verdict false false s = some .tooLargePersistable := by
+  decide +kernel
+
+open V.Limits V.Ident in
+/-- **Create events of the room versions with domain-less room IDs** (12, org.matrix.hydra.11; /repo 6f18745): the room of
+    such an event is named by its event ID, so nothing is demanded of the form of a `room_id` member it carries anyway —
+    but the member is a field of the event: over 255 code points the event is refused, on receipt and on the trusted
+    path, as the property says; a short one (here `!junk`, not a room ID) is tolerated.  Before the repair `checkRoomID`
+    skipped create events altogether and the first event was accepted. -/
+example :
+    let create : BS := [0x6D, 0x2E, 0x72, 0x6F, 0x6F, 0x6D, 0x2E, 0x63, 0x72, 0x65, 0x61, 0x74, 0x65]
+    let long := sizesOf 2000 create (some []) [0x40, 0x73, 0x3A, 0x62] (0x21 :: List.replicate 300 0x61)
+    let junk := sizesOf 2000 create (some []) [0x40, 0x73, 0x3A, 0x62] [0x21, 0x6A, 0x75, 0x6E, 0x6B]
+    long.create = true ∧ Spec.wellFormedIDs true false long = true ∧
+    verdictUntrusted (stdParams .prefixOnly false) long 2000 = .tooLarge ∧ verdict (stdParams .prefixOnly false) long = .tooLarge ∧
+    Spec.verdict true false long = some .tooLarge ∧
+    verdictUntrusted (stdParams .prefixOnly false) junk 2000 = .ok ∧ Spec.verdict true false junk = some .ok ∧
+    -- the same member on an event that is not a create event: refused as a malformed room ID (outside the sentence)
+    verdictUntrusted (stdParams .prefixOnly false) (sizesOf 2000 [0x6D] none [0x40, 0x73, 0x3A, 0x62] [0x21, 0x6A, 0x75, 0x6E, 0x6B]) 2000 = .other := by
   decide +kernel
 
 open V.Limits in
